@@ -283,6 +283,8 @@ def mk_pow(b, e):
                 return const(bv ** int(ev))
         if b.op == "c" and b.args[0] == 1:
             return ONE
+        if b.op == "c" and b.args[0] == 0 and ev > 0:
+            return ZERO
     return T("^", (b, e))
 
 
